@@ -212,6 +212,7 @@ func TestC12(t *testing.T) {
 		}
 	}
 	e.Sample([]string{"path r5 f5.2.17 f17.0.40 l40.3"})
+	vtC12(e, g) // value-level correspondence (valtree_test.go): ops `valns`
 }
 
 func describePath(g *typeGraph, p tPath) string {
